@@ -726,7 +726,7 @@ def failure_record(mode, case, f):
 
 # ---------------------------------------------------------------- end to end
 E2E_OPTS = [[], [], ["--disable_tb"], ["--keep_names"], ["-M"], ["--drop_globals"], ["--keep_prep"], ["-O", "tid"],
-            ["-t"], ["-t"], ["-t", "--disable_tb"]]
+            ["-t"], ["-t"], ["-t", "--disable_tb"], ["-F", "XC"], ["-F", "XCM"], ["--flow"], ["--power-stats"]]
 
 
 def readback_items(path):
